@@ -228,4 +228,120 @@ def trailerSection (buf : Bytes) : Bytes :=
   | 48 :: rest => if buf.length < 3 then buf else if rest.take 2 = Gen.Str.strCRLF then buf.drop 3 else buf
   | _ => buf
 
+/-! ## c627e0d: a folded value whose next line has not arrived is not compacted — `Next` asks for more
+
+`scanNextE`/`scanBlock` above are `Next` WITHOUT that rule (the code before c627e0d; kept because the rule is stated on top
+of them and their theorems are used).  `scanNextN`/`scanBlockN` are the code as it stands. -/
+
+/-- what is buffered behind a multi-line value does not tell whether the value goes on: nothing (`n+1 >= len(s.B)`), or a
+line that starts with a blank and has no line feed yet (`d < 0`) -/
+def foldOpen (rest : Bytes) : Bool :=
+  match rest with
+  | [] => true
+  | c :: _ => isOWS c && (indexByte 10 rest).isNone
+
+/-- `isMultiLineValue` at the end of the look-ahead loop -/
+def isMulti (B : Bytes) : Bool :=
+  match indexByte 58 B with
+  | some n =>
+    let A := B.drop (n + 1)
+    let B1 := A.drop (A.takeWhile isOWS).length
+    (match indexByte 10 B1 with
+     | some n1 => contExtra (B1.drop (n1 + 1)) > 0
+     | none => false)
+  | none => false
+
+/-- the new early return of `Next` -/
+def openFold (dn : Bool) (B : Bytes) : Bool :=
+  match scanNext dn B with
+  | .kv _ _ rest _ => isMulti B && foldOpen rest
+  | _ => false
+
+/-- by that return the key has been canonicalised where it lies -/
+def keyEdit (dn : Bool) (B : Bytes) : Bytes :=
+  match indexByte 58 B with
+  | some n => normalizeKey dn (B.take n) ++ B.drop n
+  | none => B
+
+/-- … and `HLen` has been advanced over key, colon and blanks -/
+def pendingLen (B : Bytes) : Nat :=
+  match indexByte 58 B with
+  | some n => n + 1 + ((B.drop (n + 1)).takeWhile isOWS).length
+  | none => 0
+
+/-- **One call of `HeaderScanner.Next` as it stands** -/
+def scanNextN (dn : Bool) (B : Bytes) : Scan × Bytes :=
+  if openFold dn B then (.needMore, keyEdit dn B) else scanNextE dn B
+
+/-- a scanned block; `touched` = `HLen` when the scan stops without reaching the blank line -/
+structure BlockN where
+  fields : List (Bytes × Bytes)
+  stop : Stop
+  consumed : Nat
+  touched : Nat
+  buf : Bytes
+deriving Repr, DecidableEq
+
+def scanBlockNE (dn : Bool) : Nat → Bytes → BlockN
+  | 0, B => ⟨[], .needMore, 0, 0, B⟩
+  | fuel + 1, B =>
+    match scanNextN dn B with
+    | (.fin n, _) => ⟨[], .fin n, 0, 0, B⟩
+    | (.needMore, B') => ⟨[], .needMore, 0, (if openFold dn B then pendingLen B else 0), B'⟩
+    | (.invalidName, _) => ⟨[], .invalidName, 0, 0, B⟩
+    | (.kv k v rest n, B') =>
+      let r := scanBlockNE dn fuel rest
+      ⟨(k, v) :: r.fields, (match r.stop with | .fin h => .fin (n + h) | s => s), n + r.consumed, n + r.touched,
+        B'.take n ++ r.buf⟩
+
+def scanBlockN (dn : Bool) (B : Bytes) : BlockN := scanBlockNE dn (B.length + 1) B
+def editBlockN (dn : Bool) (B : Bytes) : Bytes := (scanBlockN dn B).buf
+def BlockN.reading (r : BlockN) : List (Bytes × Bytes) × Stop := (r.fields, r.stop)
+
+/-- the retry scheme of the real readers with the edits, as it stands -/
+def retryScanN (dn : Bool) : Bytes → List Bytes → BlockN
+  | buf, [] => scanBlockN dn buf
+  | buf, seg :: segs =>
+    match (scanBlockN dn buf).stop with
+    | .needMore => retryScanN dn ((scanBlockN dn buf).buf ++ seg) segs
+    | _ => scanBlockN dn buf
+
+/-- `resp.parse` with the buffer, as it stands (the answer is the pure parser's: a block that ends inside a fold is
+need-more either way) -/
+def respParseN (dn : Bool) (buf : Bytes) : Except HeadErr (RespRead.RespHead × Nat) × Bytes :=
+  match RespRead.parseFirstLine buf with
+  | .error e => (.error e, buf)
+  | .ok (_, m) => (RespRead.parseRespHead dn buf, buf.take m ++ editBlockN dn (buf.drop m))
+
+/-- the two passes of `ext.parseTrailer`, as it stands -/
+def editTrailerN (dn : Bool) (B : Bytes) : Bytes :=
+  match (scanBlockN dn B).stop with
+  | .fin _ => editBlockN dn (scanBlockN dn B).buf
+  | _ => (scanBlockN dn B).buf
+
+def trailerParseN (dn : Bool) (tr : List (Bytes × Option Bytes)) (buf : Bytes) :
+    Except TrErr (List (Bytes × Option Bytes) × Nat) × Bytes :=
+  match buf with
+  | 48 :: rest =>
+    if buf.length < 3 then (.error .needMore, buf)
+    else if rest.take 2 = Gen.Str.strCRLF then (parseTrailer dn tr buf, buf.take 3 ++ editTrailerN dn (buf.drop 3))
+    else (parseTrailer dn tr buf, editTrailerN dn buf)
+  | _ => (parseTrailer dn tr buf, editTrailerN dn buf)
+
+def respRetryN (dn : Bool) : Bytes → List Bytes → Except HeadErr (RespRead.RespHead × Nat)
+  | buf, [] => (respParseN dn buf).1
+  | buf, seg :: segs =>
+    match (respParseN dn buf).1 with
+    | .error .needMore => respRetryN dn ((respParseN dn buf).2 ++ seg) segs
+    | r => r
+
+/-- the retry scheme over any number of reads, in terms of the pure reading of each buffer: read what is buffered; on
+need-more the next read goes behind the buffer AS THE SCANNER LEFT IT -/
+def retryReadN (dn : Bool) : Bytes → List Bytes → List (Bytes × Bytes) × Stop
+  | buf, [] => readBlock dn (buf.length + 1) buf
+  | buf, seg :: segs =>
+    match (readBlock dn (buf.length + 1) buf).2 with
+    | .needMore => retryReadN dn (editBlockN dn buf ++ seg) segs
+    | _ => readBlock dn (buf.length + 1) buf
+
 end Hertz.H1.ScanEdit
